@@ -72,16 +72,56 @@ def oracle_text(text, mods=None):
   return None
 
 
+def sig_shapes(unit):
+  """{qualified function name: [per signature ((param name, kind, optional)…, *args name, **kwargs name)]} — the part
+  of a declaration that the text fixed point cannot see being lost (a dropped `/` or `*` re-reads as a different but
+  self-consistent signature)"""
+  out = {}
+
+  def short(n):
+    return n.rsplit(".", 1)[-1]
+
+  def fn(prefix, f):
+    out[prefix + short(f.name)] = [
+        (tuple((p.name, p.kind.name, bool(p.optional)) for p in sg.params),
+         sg.starargs.name if sg.starargs else None, sg.starstarargs.name if sg.starstarargs else None)
+        for sg in f.signatures]
+
+  def cls(prefix, c):
+    q = prefix + short(c.name) + "."
+    for m in c.methods:
+      fn(q, m)
+    for k in c.classes:
+      cls(q, k)
+  for f in unit.functions:
+    fn("", f)
+  for c in unit.classes:
+    cls("", c)
+  return out
+
+
 def oracle_unit(unit, mods=None):
-  """Property oracle for a pytd unit: its printed text must satisfy `oracle_text`, and the re-read
-  declarations must print back to the same text."""
+  """Property oracle for a pytd unit: its printed text must satisfy `oracle_text`, the re-read declarations must
+  print back to the same text, and the re-read signatures must have the parameter names, kinds (positional-only /
+  regular / keyword-only), optional flags and star parameters of what was printed."""
   mods = mods or _pytype()
-  pytd_utils = mods[4]
+  parser, pytd_utils = mods[2], mods[4]
   try:
     text = pytd_utils.Print(unit)
   except Exception as e:  # pylint: disable=broad-except
     return "Print raises %r" % (e,)
-  return oracle_text(text, mods)
+  bad = oracle_text(text, mods)
+  if bad is not None:
+    return bad
+  try:
+    re_read = parser.parse_string(text, options=parser.PyiOptions(python_version=PY_VERSION))
+    a, b = sig_shapes(unit), sig_shapes(re_read)
+  except Exception as e:  # pylint: disable=broad-except
+    return "re-reading raises %r" % (e,)
+  for k in sorted(a):
+    if k in b and a[k] != b[k]:
+      return "re-read signature of %s differs from the printed declaration: %r -> %r" % (k, a[k], b[k])
+  return None
 
 
 # known, characterised regions (see known_findings.json): nothing else is exempt
